@@ -9,7 +9,7 @@
 (*   triples (AssocAll) or on all triples (P, Q, R) with Q, R from a       *)
 (*   sample of the points (every AssocStep-th point and the 2-torsion);    *)
 (*   Lagrange: [#E]P = O for every point.                                  *)
-(* One state per curve (a, b); a ranges over ASet, b over all of F_p2.     *)
+(* One leaf state per curve (a, b); a ranges over ASet, b over all of F_p2.*)
 (* The same states check that the balanced-recursion evaluators of         *)
 (* model/CurveXB are the definitions: XMulB = XMulNat (all points, all     *)
 (* scalars 0..MaxK), TPowB = TExp on F_p2, PMulB = PMulNat on the curve    *)
@@ -17,7 +17,7 @@
 (***************************************************************************)
 EXTENDS CurveXB, FiniteSets, TLC
 CONSTANTS p, usq, ASet, AssocAll, AssocStep, MaxK
-VARIABLES a, b
+VARIABLES a, b, ph
 
 P == BFromNat(p)
 T == [p |-> P, lv |-> <<[deg |-> 2, nr |-> BFromNat(usq)]>>]
@@ -31,9 +31,12 @@ M(x, y) == TMul(T, 1, x, y)
 Disc == TAdd(T, 1, TScale(T, 1, M(M(a, a), a), BMod(<<4>>, P)), TScale(T, 1, M(b, b), BMod(<<27>>, P)))
 Nonsingular == ~TIsZero(T, 1, Disc)
 
-Init == a \in AVals /\ b \in F2
-Next == UNCHANGED <<a, b>>
-Spec == Init /\ [][Next]_<<a, b>>
+(* The curves are reached in two steps (choose a and b_0, then b_1) so that TLC's workers share them: *)
+(* the states of one parent are generated - and their invariant evaluated - by one worker.           *)
+Init == a = El(0, 0) /\ b = El(0, 0) /\ ph = 0
+Next == \/ ph = 0 /\ a' \in AVals /\ (\E b0 \in F0 : b' = <<b0, <<>>>>) /\ ph' = 1
+        \/ ph = 1 /\ a' = a /\ (\E b1 \in F0 : b' = <<b[1], b1>>) /\ ph' = 2
+Spec == Init /\ [][Next]_<<a, b, ph>>
 
 (* all affine points: for every x the y with y^2 = rhs(x), through the table of squares *)
 Squares == {<<M(y, y), y>> : y \in F2}
@@ -73,5 +76,5 @@ Balanced ==
            pts1 == UNION {{Pt(x, y) : y \in {z \in F0 : FSqr(z, P) = Rhs(x, c1)}} : x \in F0}
        IN  nonsing => \A Q \in pts1 : \A k \in 0..MaxK : PMulB(BFromNat(k), Q, c1) = PMulNat(BFromNat(k), Q, c1)
 
-Check == GroupLaw /\ Balanced
+Check == ph = 2 => (GroupLaw /\ Balanced)
 =============================================================================
